@@ -5,12 +5,14 @@ use std::io::{BufRead, Write};
 
 mod pure;
 mod mtu;
+mod txring;
 mod util;
 mod wire;
 
 pub struct St {
     pub rtte: librqbit_utp::verif::RttEstimator,
     pub mtu: librqbit_utp::mtu::SegmentSizes,
+    pub tx: txring::TxSt,
 }
 
 fn step(st: &mut St, line: &str) -> String {
@@ -20,6 +22,7 @@ fn step(st: &mut St, line: &str) -> String {
         Some((&"seqnr", args)) => pure::step_seqnr(args),
         Some((&"wire", args)) => wire::step_wire(args),
         Some((&"mtu", args)) => mtu::step_mtu(&mut st.mtu, args),
+        Some((&"tx", args)) => txring::step_txring(&mut st.tx, args),
         Some((&"rtte", args)) => pure::step_rtte(&mut st.rtte, args),
         _ => "bad-op".into(),
     }
@@ -34,6 +37,7 @@ fn main() {
     let mut st = St {
         rtte: Default::default(),
         mtu: librqbit_utp::mtu::SegmentSizes::new(Default::default()),
+        tx: txring::TxSt::new(16),
     };
     for line in stdin.lock().lines() {
         let line = line.unwrap();
